@@ -5,7 +5,11 @@ get steps whose lengths are aimed at the case-split boundaries of the setter (cu
 -1/0/+1, creation length -1/0/+1, sizeof(void*) = 8, zero), so that the storage crosses
 inline -> separate -> inline(0) -> separate and grows/shrinks in place; bytes are biased
 towards NUL, >= 0x80 and the characters json_escape_str treats specially; allocation faults
-on the setter's (and the creation's) allocation; refused lengths (negative, >= INT_MAX-1).
+on the setter's (and the creation's) allocation; refused lengths (negative, >= INT_MAX-1);
+setters whose source is the node's own current buffer, json_object_get_string(o) + off, with a
+new length <= what is there (in-place truncation to every small length incl. 0 and the
+sizeof(void*) neighbourhood, strlen of the own buffer, disjoint substrings), in inline and in
+separate storage.
 
 Direct oracle: a Python byte-string model of the property text, independent of the Coq model:
 contents = bytes of the last setter that returned 1 (or of the creation)."""
@@ -16,13 +20,15 @@ DOMAIN = "str"
 LEVEL = "proof"
 TECHNIQUE = "Coq invariant/refinement proof (StrProofs.v) + extracted-model/C differential correspondence"
 RULE = ("histories of 0..24 set/get steps on a string node generated from one PRNG with a shadow of (creation length, current "
-        "length, storage class) used only to aim lengths at the setter's case-split boundaries; a case is non-trivial when "
+        "length, storage class, contents) used only to aim lengths and own-buffer sources at the setter's case-split boundaries; a case is non-trivial when "
         "the storage class changed at least once or a setter failed; distinct = distinct script among those")
 TRUSTED = ["Coq 8.16.1 kernel (coqc), no axioms (Print Assumptions: closed under the global context)",
            "extraction (ExtrOcamlBasic only) + ocaml/mdrv glue (ocaml/drv_str.ml)",
            "harness/drv_str.c, xalloc.c, gcc -fsanitize=address,undefined",
            "LP64 layout constants of the model (header 48 bytes, pointer 8 bytes; the driver refuses another ABI)"]
-ASSUMPTIONS = ["the source pointer of a setter does not alias the node's own storage (caller contract; not generated)",
+ASSUMPTIONS = ["a setter's source inside the node's own buffer stays inside the current contents and is either exactly their "
+               "start or disjoint from the destination range (a partially overlapping source is an overlapping memcpy: "
+               "not generated, see LEVEL_NOTE); a source equal to the destination relies on memcpy(p, p, n) being harmless",
                "strings longer than INT_MAX bytes (only creatable through json_object_new_string) are outside the sampled domain; "
                "the theorems carry the guard length <= INT_MAX for the int-typed length accessor",
                "memory model of C is outside the Gallina model: heap blocks, liveness and bounds are modelled explicitly, "
@@ -200,18 +206,18 @@ def parse_arg(a):
 def requested(tok, cur=b""):
     """(bytes the call asks to store | None when the length must be refused, fault index);
     cur = the contents at the call (what an own-buffer source points into)"""
-    if tok[0] in "os":
+    if tok[0] in "osOS":
         body, flt = tok[1:], None
         if "!" in body:
             body, k = body.split("!")
             flt = int(k)
-        if tok[0] == "o":
+        if tok[0] in "oO":
             off, ln = [int(x) for x in body.split(",")]
         else:
             off = int(body)
             ln = own_strlen(cur, off)
         # the generator keeps the source inside the contents and the ranges exact or disjoint
-        if not (0 <= off and off + ln <= len(cur) and (off == 0 or ln <= off)):
+        if not (0 <= off and off + ln <= len(cur) and (off == 0 or ln <= off or tok[0] in "OS")):
             raise ValueError("own-buffer source outside the generated domain: " + tok)
         return cur[off:off + ln], flt
     b, ln, flt = parse_arg(tok[1:])
@@ -255,6 +261,9 @@ def check_view(st, want, ns, where):
 
 
 def oracle(line, meta, impl):
+    if "CRASH asan:memcpy-param-overlap" in impl:
+        return ("alias-overlap", "memcpy with partially overlapping ranges: the setter's source lies inside the node's own "
+                "buffer, closer to its start than the length copied: " + impl[-60:])
     if "CRASH" in impl:
         return ("crash", "implementation crashed: " + impl[-120:])
     if impl == "MISSING":       # the driver died on an earlier line too often to be restarted
@@ -374,7 +383,8 @@ LEVEL_TEXT = ("Machine-checked invariant and refinement: for every allocator beh
               "set_string_len calls on a node created by new_string(_len), the model of the string node (len sign convention, "
               "inline area with ghost capacity, union with the buffer pointer, heap of blocks with tombstones, malloc/free log) "
               "never reaches undefined behaviour, holds exactly the bytes of the last successful set with their count and a NUL "
-              "inside the buffer, leaves a failed set (allocation failure or refused length) without any change of contents, "
+              "inside the buffer, accepts the node's own buffer as source (in-place truncation, substring: the copy precedes any "
+              "release), leaves a failed set (allocation failure or refused length) without any change of contents, "
               "length, storage or log, keeps the set of live blocks equal to {object} + {current separate buffer iff len < 0}, "
               "performs every write inside a live block of sufficient size, frees everything at delete; equality, copy and "
               "serialisation of the model read exactly the length-counted bytes and the escaping is injective (Coq, induction "
@@ -384,4 +394,6 @@ LEVEL_TEXT = ("Machine-checked invariant and refinement: for every allocator beh
 LEVEL_NOTE = ("Trusted: Coq kernel; extraction + OCaml glue; harness; LP64 layout constants.  The theorems are about the Gallina "
               "model; the C code is tied to it only by the checked correspondence (sampled histories, not all).  Guards: stored "
               "length <= INT_MAX for the int-typed accessor (strings of >= 2^31 bytes made by json_object_new_string are outside); "
-              "the setter's source must not alias the node's own buffer.")
+              "a source inside the node's own buffer must be the start of the contents or disjoint from the destination; "
+              "json_object_set_string(o, json_object_get_string(o) + k) with more than k bytes left is an overlapping memcpy in "
+              "the unchanged code (ASan: memcpy-param-overlap) and is kept out of the generator (reported as class alias-overlap).")
